@@ -142,6 +142,26 @@ let predict (c : string) (obs : string) : string * string * bool =
       if List.length ofs <> List.length steps && !bad = "" then bad := "BAD:w:missing-observations";
       let late = List.exists (fun f -> String.length f = 5 && (f.[3] = '1' || f.[1] = '1')) ofs in
       (String.concat " " pred, (if !bad = "" then "ok" else !bad), late || List.length steps > 1)
+  | [ "cfg"; forms ] ->
+      let want = String.concat "" (List.map (fun f ->
+        let w = (match f with
+          | "absent" -> None | "true" | "envtrue" -> Some true | "false" | "envfalse" -> Some false
+          | _ -> failwith ("bad form " ^ f)) in
+        bit (configured_discard w)) (String.split_on_char ',' forms)) in
+      (want, (if obs = want then "ok" else "BAD:cfg:discard_overflow-not-as-written-in-the-config want=" ^ want ^ " got=" ^ obs), true)
+  | [ "ph"; inst; behind; ordinary; episodes ] ->
+      let i = int_of_string in
+      let total = i episodes * (i inst + i behind + i ordinary) and disc = i episodes * i behind in
+      let pred = Printf.sprintf "N=%d F=%d D=%d X=%d S=%d" total (total - disc) disc 0 (total - disc) in
+      let get k = (match List.find_opt (fun f -> String.length f > 2 && String.sub f 0 2 = k ^ "=") ofs with
+                   | Some f -> (try int_of_string (String.sub f 2 (String.length f - 2)) with _ -> -1) | None -> -1) in
+      let n = get "N" and f = get "F" and d = get "D" and x = get "X" and sh = get "S" in
+      let v =
+        if List.mem "run-error" ofs then "BAD:ph:run-error"
+        else if n <> total then "BAD:ph:lines-written-differ-from-the-tokens-of-the-schedule"
+        else if x <> 0 || f <> sh || d <> n - sh then "BAD:ph:discarded-token-not-written-as-777-discarded"
+        else "ok" in
+      (pred, v, true)
   | [ "proftail"; _; segs; _; _; _ ] ->
       let (_, tails) = profile_offsets (z_of_int 0) (segments_of segs) in
       (* the unlimited tail is not part of the Waiter model: the prediction is the specification's *)
